@@ -4,12 +4,15 @@ Correspondence: Lean model (Model/Pretty.lean) vs rich.pretty, in-process:
   * `traverse` on a heap description of the Python value (identities kept) vs the real Node tree,
   * `Node.render` / `pretty_repr` output, character for character,
   * `Node.iter_tokens/__str__/check_length`, `_Line.expandable/check_length/__str__/expand` on synthetic
-    (also ill-formed) nodes and lines.
+    (also ill-formed) nodes and lines,
+  * `Pretty.__rich_measure__` (the reported width or ValueError) and `Pretty.__rich_console__` (text, Text
+    attributes, guides request, blank line) on the real `Pretty` object.
 Direct evaluation (3d), with oracles independent of the Lean model:
   * eval() of the real output is the value again, same types at every level,
   * the output equals a reference printer written from the statement (one item per line, consistent
     indentation, kept on one line iff it fits, exact abbreviation counts, `...` on the path) up to the legal
-    trailing comma, and equals repr() whenever that fits for list/tuple/dict/set/frozenset values.
+    trailing comma, and equals repr() whenever that fits for list/tuple/dict/set/frozenset values,
+  * rendering the real `Pretty` at the width `__rich_measure__` reported has no line wider than that width.
 """
 import multiprocessing
 import random
@@ -22,7 +25,7 @@ PROPERTY = "C16"
 DROP_SUFFIX = 0  # F24: _Line.expand derives the closing line's suffix from the node instead of carrying its own (0: fix 376cec1)
 ARRAY_LITERAL = 0  # F12: the empty form of array is the literal text "array({_object.typecode!r})" (0: fix e5d1b9a)
 
-MEASURE_NO_EXPAND_ALL = 0  # F26: Pretty.__rich_measure__ calls pretty_repr without expand_all (1 = the code as it stands)
+MEASURE_NO_EXPAND_ALL = 0  # F26: Pretty.__rich_measure__ calls pretty_repr without expand_all (1 = rich 9.10.0 as found; 0: fix db5535b)
 
 ARRAY_LITERAL_TEXT = "array({_object.typecode!r})"
 INDENTS = [4, 4, 1, 2, 0, 8]
@@ -763,7 +766,7 @@ MANIFEST = {
     "exactly N-max (negative max_length: ValueError exactly for a non-empty root container; negative max_string: what the "
     "code prints is stated, it is not a count); the root's `last` flag is unobservable after fix 376cec1; "
     "pretty_measure_sound: if __rich_measure__ reports m then rendering at width m has no line wider than m (for the variant "
-    "that passes expand_all; machine-checked counter-example for the code as it stands: F26); F12 witness. Tie: ~310k (quick) "
+    "that passes expand_all = /repo since fix db5535b; machine-checked counter-example for the code as found: F26); F12 witness. Tie: ~310k (quick) "
     "/ millions (thorough) generated cases per run compare model and rich.pretty character for character (traverse on a heap "
     "description of the real object graph, Node.render, pretty_repr, __rich_measure__, __rich_console__ attributes, and the "
     "Node/_Line methods on synthetic also ill-formed objects, options inside and outside their documented domain); on every "
@@ -782,7 +785,10 @@ MANIFEST = {
     "CELL_WIDTHS table (C13); strings with lone surrogates answer `unmodelled`. pretty_measure_sound assumes blanks are one "
     "cell wide, margin = 0 and no leaf repr containing a line boundary; a leaf with empty repr makes __rich_measure__ raise "
     "ValueError (modelled, stated). Not modelled: install(), highlighting, Text.with_indent_guides itself (only that it is "
-    "requested with indent_size and style repr.indent), Text wrapping/cropping. With today's code the check prints VIOLATION "
-    "for F26 until pending_fixes/C16-measure-ignores-expand-all.diff is applied and MEASURE_NO_EXPAND_ALL set to 0.",
-    "design_ref": "DESIGN.md section 7, C16 (and the Pretty clause of C09); section 8 F12, F24; F26 new",
+    "requested with indent_size and style repr.indent), Text wrapping/cropping; Pretty.__rich_console__ is compared, no "
+    "theorem is stated about it. Variant flags (1 = rich 9.10.0 as found): DROP_SUFFIX = 0 (F24, fix 376cec1), "
+    "ARRAY_LITERAL = 0 (F12, fix e5d1b9a), MEASURE_NO_EXPAND_ALL = 0 (F26, fix db5535b): all three defects are fixed in "
+    "/repo, so the check has no known finding and prints no KNOWN-FINDING line; the classifiers pretty-expand-drops-suffix, "
+    "pretty-empty-array-literal and pretty-measure-ignores-expand-all only label a failure should one of them reappear.",
+    "design_ref": "DESIGN.md section 7, C16 (and the Pretty clause of C09); section 8: fixed in e5d1b9a (F12), 376cec1 (F24), db5535b (F26)",
 }
